@@ -1569,6 +1569,49 @@ def relpath_abspath(program, log):
                        f'relpath(p, {e.id})')
 
 
+def identity_refs(program, log):
+    """A private subclass of weakref.ref that only redefines equality and
+    hashing (by identity of the referent) is, for everything the rules ask
+    about - what is referenced, which callback fires, when it dies - a
+    weakref.ref: calls of it read `weakref.ref(...)`.  The classes are listed
+    in `program.identity_refs` (C03.identity asks for one)."""
+    program.identity_refs = {}
+    for mod in program.modules.values():
+        for cd in [n for n in mod.tree.body if isinstance(n, ast.ClassDef)]:
+            if not (cd.name.startswith('_') and len(cd.bases) == 1 and dotted(
+                    cd.bases[0]) in ('weakref.ref', 'ref')):
+                continue
+            meths = {n.name for n in cd.body if isinstance(n, ast.FunctionDef)}
+            if not meths <= {'__init__', '__eq__', '__ne__', '__hash__'} \
+                    or not {'__eq__', '__hash__'} <= meths:
+                continue
+            program.identity_refs[cd.name] = mod.name
+    if not program.identity_refs:
+        return
+    for f in program.all_functions():
+        if f.cls is not None and f.cls.name in program.identity_refs:
+            continue
+
+        class R(ast.NodeTransformer):
+            hit = 0
+
+            def visit_Call(self, n):
+                self.generic_visit(n)
+                if isinstance(n.func, ast.Name) and n.func.id in \
+                        program.identity_refs:
+                    R.hit += 1
+                    n.func = ast.copy_location(ast.Attribute(
+                        ast.Name('weakref', ast.Load()), 'ref', ast.Load()),
+                        n.func)
+                return n
+        R.hit = 0
+        R().visit(f.node)
+        if R.hit:
+            ast.fix_missing_locations(f.node)
+            log.append(f'{f.where}: identity-comparing reference class read '
+                       'as weakref.ref')
+
+
 def rotate_idiom(program, log):
     """`q.append(q.popleft())` on a deque known to be non-empty (an earlier
     statement of the same block returns when it is empty / has at most one
@@ -2109,7 +2152,8 @@ def run(program):
     log = []
     program.records = {}
     program.cow = set()
-    for step in (explicit_properties, walrus_out, inline_simple_decorators,
+    for step in (identity_refs, explicit_properties, walrus_out,
+                 inline_simple_decorators,
                  typing_noops, relpath_abspath, sentinel_lookups, setdefault_fresh, mirror_locals,
                  rotate_idiom, drain_loops, stat_probe, split_parallel_assign,
                  inline_aliases, context_managers_to_try, rpartition_keys,
